@@ -48,6 +48,7 @@ def space(ctx):
 
 def shards(ctx):
     import androguard.core.analysis.analysis  # noqa  (warm the import before the pool forks)
+    C.freeze_heap()
     s = C.xm3_shards(ctx)
     for gi, (name, members) in enumerate(C.shipped_groups(ctx.repo)):
         s.append(("shipped", name, False))
